@@ -881,3 +881,67 @@ func (w *world) bigBatchCase(k, maxN int) {
 		}
 	}
 }
+
+// lfMatchCase: on the nested chain, a root batch that carries BOTH the liveness-fallback flag and the receipts for our
+// locked batch (matching hash), while a second batch of other users is already queued in next (its tokens sit in the
+// same holding pool). The locked batch must be settled exactly once — refunded by the fallback, not also by receipts —
+// and the queued batch's escrow must stay untouched and accounted for.
+func (w *world) lfMatchCase() {
+	w.tag = ":fallback-with-receipts"
+	w.chains = []uint64{1}
+	w.initEnv("N", 2, 1, 0, 2)
+	for i, a := range w.addrs {
+		amt := uint64(1_000_000 + w.r.Int63n(1<<40))
+		if i == 0 {
+			amt = 1 << 50
+		}
+		w.fund("N", a, amt)
+	}
+	w.setpool("N", 1+liquidityAdd, uint64(1_000_000+w.r.Int63n(1<<36)), 20, []*lib.PoolPoints{{Address: dead, Points: 10}, {Address: w.addrs[0], Points: 10}})
+	user := func(n int) {
+		for i := 0; i < n; i++ {
+			if w.r.Intn(3) == 0 {
+				w.deposit("N", 1, w.addr(), uint64(1+w.r.Intn(100_000)), w.freshID())
+			} else {
+				w.limit("N", 1, w.addr(), uint64(1+w.r.Intn(100_000)), 1, w.freshID())
+			}
+		}
+	}
+	user(2 + w.r.Intn(4))
+	w.dexbatch("N", 1, true, &lib.DexBatch{Committee: 2, PoolSize: uint64(1_000_000 + w.r.Int63n(1<<36))}) // locks batch A
+	user(1 + w.r.Intn(4))                                                                                   // batch B waits in next
+	if w.r.Intn(2) == 0 {
+		w.endblock("N")
+	}
+	e := w.envs["N"]
+	lb, _ := e.SM.GetDexBatch(1, true)
+	e.SM.ResetCaches()
+	if lb == nil || lb.IsEmpty() {
+		return
+	}
+	r := &lib.DexBatch{Committee: 2, PoolSize: uint64(1_000_000 + w.r.Int63n(1<<36)), ReceiptHash: lb.Hash(), LivenessFallback: true,
+		PoolPoints: []*lib.PoolPoints{{Address: dead, Points: 7}, {Address: w.addrs[1], Points: 5}}, TotalPoolPoints: 12}
+	for range lb.Orders {
+		if w.r.Intn(2) == 0 {
+			r.Receipts = append(r.Receipts, 0)
+		} else {
+			r.Receipts = append(r.Receipts, uint64(1+w.r.Intn(1000)))
+		}
+	}
+	if w.r.Intn(5) == 0 {
+		r.ReceiptHash = drv.Bytes(w.r, 32) // the ordinary fallback: no receipts arrived
+	}
+	w.dexbatch("N", 1, true, r)
+	w.o.Count("lfmatch:fallback-with-receipts")
+	w.endblock("N")
+	// the queued batch is now locked; settle it normally
+	if lb2, _ := e.SM.GetDexBatch(1, true); lb2 != nil && !lb2.IsEmpty() {
+		e.SM.ResetCaches()
+		r2 := &lib.DexBatch{Committee: 2, PoolSize: uint64(1_000_000 + w.r.Int63n(1<<36)), ReceiptHash: lb2.Hash()}
+		for range lb2.Orders {
+			r2.Receipts = append(r2.Receipts, uint64(w.r.Intn(2)*(1+w.r.Intn(1000))))
+		}
+		w.dexbatch("N", 1, true, r2)
+	}
+	e.SM.ResetCaches()
+}
